@@ -587,13 +587,14 @@ func RunParent(p *Prop, o Options) int {
 		if len(a.samples) == 0 {
 			cov["samples"] = []any{"no case produced a sample"}
 		}
+		assume := append([]string{"the harness transports are reliable and ordered", "verdicts cover only the executions produced by this run"}, p.Assumptions...)
 		ev := map[string]any{
 			"property_id": p.ID,
 			"tier":        o.Tier,
 			"seed":        o.Seed,
 			"level":       p.Level,
 			"coverage":    cov,
-			"assumptions": p.Assumptions,
+			"assumptions": assume,
 			"wall_s":      time.Since(t0).Seconds(),
 			"violations":  nviol,
 			"known_findings_seen": len(printedKnown),
